@@ -44,6 +44,9 @@ CLAIMED = {
  "C03": ("field-write summaries + loop analysis (range-while-mutated), exhaustive CFG path enumeration of the per-proof routine with effect classes, commit-path guard analysis with shape-recognised window predicates, bank instances along call paths",
          "no loop over a file's prover list passes the file to a callee that may rewrite the list; every path of the per-proof routine does exactly one of credit / remove / remove+burn, credit only behind proven or young, burn only behind not-proven and not-young, predicates fed height and the loaded LastProven; the single payout goes to size-tracker keys with an amount depending on tracker entry, total and the pulled coins. Shares within one base unit and Σ paid ≤ released are not decided.",
          "DESIGN.md §5 C03"),
+ "C12": ("dependence signature of the released amount, same-value check pooled=sent, commit-path guard analysis of pulls and deletes with role-typed time/balance predicates, constructor key provenance",
+         "the gauge->module amount depends on Start, End, Coins, block time and the gauge balance and is what is added to the pool; pulls only behind End>=now, End>Start, non-empty balance; deletes only behind an empty balance or a sweep (one known finding: ended gauges are deleted undrained); gauge id provenance (one known finding: id collision within a block). The linear formula, monotonicity and rounding are not decided.",
+         "DESIGN.md §5 C12"),
 }
 NA = {}
 props = [json.loads(l) for l in open('properties.jsonl')]
